@@ -60,6 +60,11 @@ var c10Exprs = []string{
 var c10Tags = []string{"<b>", "</b>", "<br/>", "<a href=\"u\">", "<a class=\"k\">", "</a>", "<i>", "<img src=\"s\"/>", "<a href=\"u\">", "<span>", "</span>", "<a_1>"}
 var c10Words = []string{"Hello ", "you have ", " new ", "items", ", ", "!", " and ", "é ", "{sp}", "x_1 ", "{lb}0{rb} ", "{lb}NAME{rb}", "{lb}", "{rb} ", "a{nil}b"}
 
+// c10Cmds are commands that may stand inside a message body (they have attributes of their own).
+var c10Cmds = []string{
+	"{call .c10u}{param p: 1 /}{/call}", "{call .c10u data=\"all\"}{param p}x{/param}{/call}", "{call .c10u}{param key=\"p\" value=\"2\"/}{/call}",
+}
+
 // c10TextPairs are raw-text fragments whose texts differ (after Soy's own substitution of {lb},
 // {rb}, {sp}, {nil}): a message ending in one must not share its id with the same message ending
 // in the other.
@@ -111,6 +116,8 @@ func printParts(sb *strings.Builder, ps []msgPart) {
 			} else {
 				sb.WriteString("{" + p.S + "}")
 			}
+		case "cmd":
+			sb.WriteString(p.S) // a command inside the message body ({call}, block {let}): a placeholder of its own
 		case "plural":
 			sb.WriteString("{plural " + p.S + "}")
 			for _, c := range p.Cases {
@@ -159,6 +166,9 @@ func bundleFor(ns, tmpl, file string, msgs []msgSpec) *gen.Case {
 		sb.WriteString(m.source() + "\n")
 	}
 	sb.WriteString("{/template}\n")
+	if tmpl != "c10u" {
+		sb.WriteString("\n/** @param? p */\n{template .c10u}\n{$p}\n{/template}\n")
+	}
 	c := &gen.Case{Files: []*gen.File{{Name: file, Text: sb.String()}}}
 	c.Globals = []gen.KV{{K: "G_X", V: gen.DVal{T: "int", I: 1}}, {K: "app.G_X", V: gen.DVal{T: "str", S: "g"}}}
 	return c
@@ -224,7 +234,9 @@ func nestedBundle(kind string, m msgSpec) *gen.Case {
 func genParts(r *simrt.RNG, n int, allowPlural bool) []msgPart {
 	var out []msgPart
 	for i := 0; i < n; i++ {
-		switch x := r.Intn(10); {
+		switch x := r.Intn(11); {
+		case x == 10:
+			out = append(out, msgPart{T: "cmd", S: c10Cmds[r.Intn(len(c10Cmds))]})
 		case x < 3:
 			out = append(out, msgPart{T: "text", S: c10Words[r.Intn(len(c10Words))]})
 		case x < 5:
@@ -357,6 +369,15 @@ func c10Exec(cs *c10Case, plan *simrt.MapPlan, u *wk.Unit) *wk.Failure {
 			c = bundleFor("app.m", "t", "m.soy", []msgSpec{m})
 		case "twice":
 			c = bundleFor("app.m", "t", "m.soy", []msgSpec{cs.Msg, cs.Msg})
+			idx = 1
+		case "after-impostor":
+			// an earlier message whose literal text is this message's placeholder string ("Hello {X}!"
+			// written with {lb} and {rb}), with the same meaning
+			txt := strings.NewReplacer("{", "{lb}", "}", "{rb}").Replace(r0.PH)
+			if txt == r0.PH || strings.ContainsAny(r0.PH, "\n") {
+				return nil // no placeholders: nothing to impersonate
+			}
+			c = bundleFor("app.m", "t", "m.soy", []msgSpec{{Desc: "impostor", Meaning: cs.Msg.Meaning, Body: []msgPart{{T: "text", S: txt}}}, cs.Msg})
 			idx = 1
 		default:
 			if _, ok := nestings[cs.Variant]; !ok {
@@ -668,7 +689,7 @@ func C10(c *wk.Ctx) {
 			// (b) histories
 			do(&c10Case{Msg: m, Others: others, Check: "history", History: 1 + r.Intn(6)}, nil)
 			// (d) contexts
-			for _, v := range []string{"surrounded", "elsewhere", "description", "description-bar", "description-punct", "description-empty", "twice"} {
+			for _, v := range []string{"surrounded", "elsewhere", "description", "description-bar", "description-punct", "description-empty", "twice", "after-impostor"} {
 				do(&c10Case{Msg: m, Others: others, Check: "context", Variant: v}, nil)
 			}
 			for _, v := range nestingNames {
